@@ -221,9 +221,14 @@ structure ProcObs where
   repro : Nat           -- how many consecutive runs of this case showed the same failure (0 = first run fine)
   timedOut : Bool       -- the process reported "timeout exceeded": it left through the interrupt timeout, without the final flush
   servedExit : Nat      -- requests the target had completely answered ≥ 500 ms before the process was gone
+  since : Nat := 0      -- milliseconds between the signal and the moment the process was gone
 
 def judgeProc (o : ProcObs) : String :=
   if o.bad != 0 then s!"fail:malformed:{o.bad} lines of the result file do not decode"
+  else if o.lines < o.servedBefore && o.timedOut && o.since < 2500 then
+    -- the process says it gave up waiting for its tasks, long before the shortest interrupt timeout (3 s) can have
+    -- elapsed, and answered requests are missing from the result: conclusive in one run
+    s!"fail:signal-loss:the process reported its interrupt timeout {o.since} ms after the signal (documented: 3 s / 30 s); {o.servedBefore} requests were answered before the signal, result file has {o.lines} lines (exit {o.exit})"
   else if o.lines < o.servedBefore then
     if o.repro ≥ 3 then
       s!"fail:signal-loss:{o.servedBefore} requests were answered before the signal, result file has {o.lines} lines (exit {o.exit})"
